@@ -1,4 +1,4 @@
-use std::collections::HashMap;
+use std::collections::{BTreeMap, HashMap};
 
 use aho_corasick::{AhoCorasickBuilder, AhoCorasickKind};
 use regex::{RegexBuilder, RegexSetBuilder};
@@ -175,7 +175,8 @@ pub fn matrix(expression: Expression) -> Expression {
                 #[cfg(feature = "verif")]
                 crate::verif::hit(crate::verif::Arm::OPT_MATRIX_BUILT);
                 let mut columns: Vec<(String, u32)> = fields.into_iter().collect();
-                columns.sort_by(|x, y| x.1.cmp(&y.1));
+                // NOTE: Ties are broken by name so that the result does not depend on hash order
+                columns.sort_by(|x, y| x.1.cmp(&y.1).then_with(|| x.0.cmp(&y.0)));
                 let columns: Vec<String> = columns.into_iter().map(|(c, _)| c).collect();
                 let mut rows = vec![];
                 let mut rest = vec![];
@@ -669,7 +670,8 @@ fn shake_1(expression: Expression) -> Expression {
         Expression::BooleanGroup(BoolSym::And, expressions) => {
             let length = expressions.len();
 
-            let mut nested = HashMap::new();
+            // NOTE: Ordered maps, the merged expressions are emitted by iterating them
+            let mut nested = BTreeMap::new();
 
             let mut scratch = vec![];
 
@@ -717,9 +719,10 @@ fn shake_1(expression: Expression) -> Expression {
         Expression::BooleanGroup(BoolSym::Or, expressions) => {
             let length = expressions.len();
             let expressions = {
-                let mut needles = HashMap::new();
-                let mut nested = HashMap::new();
-                let mut patterns = HashMap::new();
+                // NOTE: Ordered maps, the merged expressions are emitted by iterating them
+                let mut needles = BTreeMap::new();
+                let mut nested = BTreeMap::new();
+                let mut patterns = BTreeMap::new();
 
                 // NOTE: Order is crucial here just like in the parser, thus we copy its ideal
                 // ordering.
